@@ -60,7 +60,7 @@ def w1 : Op → Nat := fun _ => 1
     the store of `ops ++ [N]` with the same properties; the ops held are the old ones plus `N`
     (a delete is not stored, it only leaves successor entries). -/
 theorem C02_insertRemote_inv (w : Op → Nat) (ops : List Op) (s : Store) (N : Op)
-    (hw : WF (ops ++ [N])) (hf : Fresh ops N) (hi : StoreInv ops s) :
+    (hw : OpsWF (ops ++ [N])) (hf : Fresh ops N) (hi : StoreInv ops s) :
     StoreInv (ops ++ [N]) (insertRemote w s N) ∧
     ((insertRemote w s N).map (·.op)).Perm (s.map (·.op) ++ (if N.isDel then [] else [N])) :=
   ⟨insertRemote_inv hw hf hi, insertRemote_perm s N⟩
@@ -112,7 +112,7 @@ example : rgaOrder ([mkL, insX, insZ, insV] ++ [insY]) lst = [insX, insZ, insV, 
     * the insert ops of every sequence object appear in the store in the specification's RGA order;
     * the keys of every map, the visible elements of every sequence and the rendered document are
       the specification's. -/
-theorem C02_store_refines_spec (ops : List Op) (s : Store) (hw : WF ops) (hi : StoreInv ops s) :
+theorem C02_store_refines_spec (ops : List Op) (s : Store) (hw : OpsWF ops) (hi : StoreInv ops s) :
     (∀ r ∈ s, r.op.isValue = true → r.isVisible = visible ops r.op) ∧
     (∀ r ∈ s, rowEntry r = entryOf ops r.op) ∧
     (∀ obj k, storeMapRegister s obj k = mapRegister ops obj k) ∧
@@ -148,7 +148,7 @@ example : storeShowDoc (buildStore w1 h1) (h1.length + 1) = showDoc h1 ∧
     of every run of rows of one register), `widthCol` (the width of the `top` rows, none elsewhere).
     Hypotheses: causal delivery, and the op names predecessors of its own register only. -/
 theorem C02_index_columns_maintained (w : Op → Nat) (ops : List Op) (s : Store) (N : Op)
-    (hw : WF (ops ++ [N])) (hf : Fresh ops N) (hp : PredsInReg ops N) (hi : StoreInv ops s)
+    (hw : OpsWF (ops ++ [N])) (hf : Fresh ops N) (hp : PredsInReg ops N) (hi : StoreInv ops s)
     (hidx : IndexInv w s) : IndexInv w (insertRemote w s N) :=
   insertRemote_indexOk hw hf hp hi hidx.1 hidx.2.1 hidx.2.2.2
 
@@ -166,7 +166,7 @@ theorem C02_store_index_exact (w : Op → Nat) (ops : List Op) (h : Admissible o
 /-- "`IndexBuilder`'s run-based `top`": on a store in the code's order the rows of one register are
     contiguous, so "last visible row of the run" is "visible, and no visible row of the register
     anywhere behind" — what `top_ops`, `keys`, `seek_list_ops_by_index_fast` rely on. -/
-theorem C02_top_is_last_visible (ops : List Op) (s : Store) (hw : WF ops) (hi : StoreInv ops s) :
+theorem C02_top_is_last_visible (ops : List Op) (s : Store) (hw : OpsWF ops) (hi : StoreInv ops s) :
     topCol s = topAny s ∧ NoReturn (s.map (·.op)) :=
   ⟨storeInv_topCol hw hi, by rw [hi.order]; exact canon_noReturn hw hi.complete⟩
 
